@@ -15,7 +15,7 @@ class C14(Prop):
     assumptions = ['syn re-prints an unmodified item with the tokens it parsed (validated by the token-level oracle on every case)']
 
     def n(self, tier):
-        return 4000 if tier == 'quick' else 60000
+        return 4000 if tier == 'quick' else 250000
 
     def cases(self, tier, rng):
         g, gi = Gen(rng), ImplGen(rng)
